@@ -1009,6 +1009,18 @@ pub struct PipeProtocol;
 const PP_BEHAVIOURS: [&str; 6] = ["reads everything, then replies", "replies (200 KB) BEFORE it reads anything", "replies and exits without reading", "closes its stdin, then replies", "reads 10 bytes, replies (200 KB), reads the rest", "writes 200 KB to stderr before it reads"];
 impl PipeProtocol {
     fn scenario(idx: u64) -> (Scenario, String) {
+        if idx >= 24 {
+            // a reply that names an EMPTY file where something that is not a regular file already is (a named pipe nobody
+            // reads, a link to a device that never ends): nothing to compare, nothing to write - and nothing to wait for
+            let mut sc = Scenario::default();
+            sc.tree.push(("t.slice".into(), crate::proc::Node::File(b"module M\nstruct S { a: int32 }\n".to_vec())));
+            sc.tree.push(("out".into(), crate::proc::Node::Dir));
+            sc.tree.push(("out/special.txt".into(), if idx == 24 { crate::proc::Node::Fifo } else { crate::proc::Node::Symlink("/dev/zero".into()) }));
+            let reply = encode_reply(&[crate::proc::rfile("special.txt", ""), crate::proc::rfile("plain.txt", "x\n")], &[]);
+            sc.gens.push(Gen { name: "gen".into(), install: Install::Script(Script(vec![Step::ReadAll, Step::Stdout(reply), Step::Exit(0)])) });
+            sc.argv = vec!["t.slice".into(), "-G".into(), "{gen0}".into(), "-O".into(), "out".into()];
+            return (sc, format!("a reply naming an empty file where {} already is", if idx == 24 { "a named pipe" } else { "a link to /dev/zero" }));
+        }
         let b = (idx % 6) as usize;
         let big_request = (idx / 6) % 2 == 1;
         let two = idx / 12 == 1;
@@ -1040,7 +1052,7 @@ impl Family for PipeProtocol {
         format!("pipe-protocol/{} generator behaviours (order of reading and of writing 200 KB) x request small / 100 KB x alone / before a second generator: slicec ends within 20 s with exit status 0 or 1", PP_BEHAVIOURS.len())
     }
     fn len(&self) -> u64 {
-        24
+        26
     }
     fn hang_secs(&self) -> f64 {
         90.0
